@@ -328,7 +328,7 @@ def range_case(draw):
 
 def budget(tier):
     if tier == 'quick':
-        return dict(examples=4800, wall=100)
+        return dict(examples=8000, wall=100)
     return dict(examples=120000, wall=1500)
 
 
